@@ -83,7 +83,7 @@ VARIANTS = [
          old='''            tmp = fname.with_name(
                 f"{fname.name}.tmp-{os.getpid()}-{threading.get_ident()}"
             )
-''', new='''            tmp = fname.with_suffix(f".tmp{os.getpid()}")
+''', new='''            tmp = fname.with_suffix(f".tmp{os.getpid()}-{threading.get_ident()}")
 '''),
     dict(name="twin: explicit close before the move", kind="twin", file=U, old=WRITE,
          new='''            tmp = fname.with_name(
@@ -113,4 +113,13 @@ VARIANTS = [
     dict(name="seed C15_10: an entry counts as present while a temporary sibling exists", kind="break", file=U,
          old="        return self._path.joinpath(*k).exists()\n\n    def __setitem__", new="        fname = self._path.joinpath(*k)\n        if fname.exists():\n            return True\n        return any(fname.parent.glob(f\"{fname.name}.tmp-*\"))\n\n    def __setitem__",
          expect=("C15-READER", "presence")),
+    dict(name="seed C15_11: the temp sibling's suffix is computed once per DiskDict", kind="break", file=U,
+         edits=[(U, "        self.retry_delay = float(retry_delay)\n", "        self.retry_delay = float(retry_delay)\n        self._tmp_suffix = f\".tmp-{os.getpid()}-{threading.get_ident()}\"\n"),
+                (U, "            tmp = fname.with_name(\n                f\"{fname.name}.tmp-{os.getpid()}-{threading.get_ident()}\"\n            )\n", "            tmp = fname.with_name(fname.name + self._tmp_suffix)\n"),
+                (U, "        \"_path\",\n        \"max_retries\",", "        \"_path\",\n        \"_tmp_suffix\",\n        \"max_retries\",")],
+         expect=("C15-ATOMIC", "own-temp")),
+    dict(name="temp sibling named after the process only", kind="break", file=U,
+         old="                f\"{fname.name}.tmp-{os.getpid()}-{threading.get_ident()}\"\n", new="                f\"{fname.name}.tmp-{os.getpid()}\"\n", expect=("C15-ATOMIC", "own-temp")),
+    dict(name="twin: temp sibling named with a random token", kind="twin", file=U,
+         old="                f\"{fname.name}.tmp-{os.getpid()}-{threading.get_ident()}\"\n", new="                f\"{fname.name}.tmp-{__import__('uuid').uuid4().hex}\"\n"),
 ]
